@@ -68,6 +68,7 @@ CONSTANTS Delim,      \* the hierarchy delimiter, a one-character string
           RecComps,   \* {} or {"R", "r"}: spellings of the recovery mailbox (only as whole names)
           MaxDepth,   \* names typed by clients have 1..MaxDepth components
           MaxBoxes,   \* bound on mailboxes besides INBOX
+          MaxDsub,    \* bound on names that are subscribed without a mailbox (exhaustive runs)
           Forms,      \* subset of {"plain", "trail", "lead", "dbl"}
           PatComps,   \* component ids used as literal tokens of LIST patterns
           MaxPat,     \* patterns have 0..MaxPat tokens
@@ -77,7 +78,10 @@ CONSTANTS Delim,      \* the hierarchy delimiter, a one-character string
           Record,     \* TRUE: keep the behaviour in hist (simulation)
           MaxSteps,   \* length of a simulated behaviour
           QPerStep,   \* random queries per simulated step
-          QFinal      \* number of queries at the final state (>= all: every query)
+          QFinal,     \* number of queries at the final state (>= all: every query)
+          Modes       \* simulation: {"free"} or {"free", "steered"}; a steered behaviour never gives a new
+                      \* mailbox a name that is subscribed without a mailbox and types RENAME targets plainly
+                      \* (it walks around two known divergences of gluon so that it gets further)
 
 \* cfg files do not process escapes in strings: the backslash delimiter is bound with  Delim <- DelimBackslash
 DelimBackslash == "\\"
@@ -147,8 +151,9 @@ VARIABLES boxes,   \* existing mailboxes (canonical names), INBOX included, the 
           subs,    \* the subscription list (names)
           holder,  \* the mailbox holding the test message, or None
           last,    \* the last step (hidden by the view)
-          steps, hist
-vars == <<boxes, subs, holder, last, steps, hist>>
+          steps, hist,
+          mode     \* simulation: "free" or "steered", fixed for the behaviour
+vars == <<boxes, subs, holder, last, steps, hist, mode>>
 view == <<boxes, subs, holder>>
 
 -----------------------------------------------------------------------------
@@ -219,6 +224,7 @@ Rec(act, s, args, status, created, moved, removed, conn) ==
    removed |-> {Flat(n) : n \in removed}, conn |-> conn]
 
 WithinBounds(B) == ~Bounded \/ (Cardinality(B) <= MaxBoxes + 1 /\ \A n \in B : Len(n) <= MaxDepth)
+DsubWithinBounds(B, S) == ~Bounded \/ Cardinality(S \ B) <= MaxDsub
 
 Refuse(act, s, args, status, conn) ==
   /\ last' = Rec(act, s, args, status, {}, {}, {}, conn)
@@ -245,7 +251,8 @@ Create(s, raw) ==
 Delete(s, raw) ==
   LET n == Canon(raw.c)
   IN IF raw.f = "plain" /\ ~IsRec(raw.c) /\ n # Inbox /\ n \in boxes
-     THEN /\ boxes' = boxes \ {n}           \* G4
+     THEN /\ DsubWithinBounds(boxes \ {n}, subs)
+          /\ boxes' = boxes \ {n}           \* G4
           /\ UNCHANGED subs                 \* stays on the subscription list
           /\ holder' = IF holder = n THEN None ELSE holder
           /\ last' = Rec("DELETE", s, <<Arg(raw)>>, "OK", {}, {}, {n}, NoConn)
@@ -359,6 +366,7 @@ Init ==
   /\ last = Rec("init", 0, <<>>, "OK", {}, {}, {}, NoConn)
   /\ steps = 0
   /\ hist = <<>>
+  /\ mode \in Modes
 
 Sessions == {1, 2}
 RawNames == {Raw(c, f) : c \in TypedNames, f \in Forms}
@@ -408,20 +416,40 @@ PickForm == IF Pick(1..6) = 1 THEN Pick(Forms) ELSE "plain"
 PickExisting == IF Pick(1..5) = 1 THEN PickTyped ELSE Spell(Pick(boxes \cup subs))
 PickConnName == IF Pick(1..3) = 1 THEN Pick(ConnNames) ELSE Pick({n \in Near : n \in ConnNames} \cup {<<c>> : c \in Comps})
 
+\* steering: the names a step would newly give to mailboxes
+Stale == subs \ boxes
+CreateNews(c) == ({Canon(c)} \cup Supers(Canon(c))) \ boxes
+RenameNews(c, d) ==
+  LET o == Canon(c)
+      n == Canon(d)
+  IN IF o = Inbox THEN CreateNews(d)
+     ELSE {Moved(i, o, n) : i \in {o} \cup Inferiors(o, boxes)} \cup (Supers(n) \ boxes)
+Steered == mode = "steered"
+\* instead of the risky step a steered behaviour takes the stale name off the subscription list
+Clean(s, news) == \E n \in {Pick(news \cap Stale)} : Unsubscribe(s, Raw(n, "plain"))
+
 SimStep(k) ==
   \E s \in {Pick(Sessions)} :
-    CASE k = "create"  -> \E c \in {PickTyped}, f \in {PickForm} : Create(s, Raw(c, f))
+    CASE k = "create"  -> \E c \in {PickTyped}, f \in {PickForm} :
+                            IF Steered /\ CreateNews(c) \cap Stale # {} THEN Clean(s, CreateNews(c)) ELSE Create(s, Raw(c, f))
       [] k = "delete"  -> \E c \in {PickExisting}, f \in {PickForm} : Delete(s, Raw(c, f))
-      [] k = "rename"  -> \E c \in {PickExisting}, d \in {PickTyped}, f \in {PickForm} : Rename(s, Raw(c, "plain"), Raw(d, f))
+      [] k = "rename"  -> \E c \in {PickExisting}, d \in {PickTyped}, f \in {PickForm} :
+                            IF Steered
+                            THEN IF RenameNews(c, d) \cap Stale # {} THEN Clean(s, RenameNews(c, d))
+                                 ELSE Rename(s, Raw(c, "plain"), Raw(d, "plain"))
+                            ELSE Rename(s, Raw(c, "plain"), Raw(d, f))
       [] k = "sub"     -> \E c \in {PickExisting}, f \in {PickForm} :
                             IF IsRec(c) THEN Create(s, Raw(c, f)) ELSE Subscribe(s, Raw(c, f))
       [] k = "unsub"   -> \E c \in {PickExisting}, f \in {PickForm} :
                             IF IsRec(c) THEN Delete(s, Raw(c, f)) ELSE Unsubscribe(s, Raw(c, f))
-      [] k = "append"  -> IF holder = None THEN Refill(s) ELSE \E c \in {PickTyped} : Create(s, Raw(c, "plain"))
-      [] k = "ccreate" -> \E n \in {PickConnName} : ConnCreate(n)
+      [] k = "append"  -> IF holder = None THEN Refill(s)
+                          ELSE \E c \in {PickTyped} :
+                                 IF Steered /\ CreateNews(c) \cap Stale # {} THEN Clean(s, CreateNews(c)) ELSE Create(s, Raw(c, "plain"))
+      [] k = "ccreate" -> \E n \in {PickConnName} : IF Steered /\ n \in Stale THEN Clean(s, {n}) ELSE ConnCreate(n)
       [] k = "cupdate" -> \E t \in {Pick(boxes)}, n \in {PickConnName} :
-                            IF t = Inbox THEN ConnUpdate(t, <<Pick(InboxVariants)>>) ELSE ConnUpdate(t, n)
-      [] k = "cdelete" -> IF boxes = {Inbox} THEN \E n \in {PickConnName} : ConnCreate(n)
+                            IF t = Inbox THEN ConnUpdate(t, <<Pick(InboxVariants)>>)
+                            ELSE IF Steered /\ n \in Stale THEN Clean(s, {n}) ELSE ConnUpdate(t, n)
+      [] k = "cdelete" -> IF boxes = {Inbox} THEN Refuse("MailboxDeleted", 0, <<>>, "err", Conn(<<>>, <<"a">>, TRUE))
                           ELSE \E t \in {Pick(boxes \ {Inbox})} : ConnDelete(t)
       [] k = "crec"    -> \E kd \in {Pick({"MailboxCreated", "MailboxUpdated", "MailboxDeleted"})} : ConnRecovery(kd, <<"a">>)
 
@@ -440,8 +468,8 @@ StepRecord ==
 
 Keep == IF Record THEN hist' = Append(hist, StepRecord) ELSE hist' = hist
 
-Next == Free /\ steps' = steps /\ Keep
-SimNext == steps < MaxSteps /\ SimFree /\ steps' = steps + 1 /\ Keep
+Next == Free /\ steps' = steps /\ Keep /\ UNCHANGED mode
+SimNext == steps < MaxSteps /\ SimFree /\ steps' = steps + 1 /\ Keep /\ UNCHANGED mode
 
 Spec == Init /\ [][Next]_vars
 
@@ -450,7 +478,7 @@ FinalQueries == IF QFinal >= Cardinality(AllQueries) THEN AllQueries ELSE Random
 \* simulation: print the behaviour when it is complete (used as an "invariant")
 EmitBehaviour ==
   (Record /\ steps >= MaxSteps) =>
-     PrintT(ToJson([trace |-> hist, final |-> {QueryResult(boxes, subs, q) : q \in FinalQueries}]))
+     PrintT(ToJson([mode |-> mode, trace |-> hist, final |-> {QueryResult(boxes, subs, q) : q \in FinalQueries}]))
 
 -----------------------------------------------------------------------------
 (* invariants *)
